@@ -133,8 +133,12 @@ class NeighboringBinHistSmoothingMethod(
                     f'shape value ({h.shape[d]:d}) of dimension {d:d} of '
                     'ndarray h!')
 
-        norm = scipy.signal.convolve(np.ones_like(h), self._k, mode="same")
-        smoothed_h = scipy.signal.convolve(h, self._k, mode="same") / norm
+        # Note: The direct method is used, because the round-off of the FFT
+        # method turns empty bins into (tiny) negative values.
+        norm = scipy.signal.convolve(
+            np.ones_like(h), self._k, mode="same", method="direct")
+        smoothed_h = scipy.signal.convolve(
+            h, self._k, mode="same", method="direct") / norm
 
         return smoothed_h
 
